@@ -81,6 +81,8 @@ def weight_patterns(k):
         # bound on a topology's mean degree or on the mass of the joint degree that is positive in every topology
         for j in range(k):
             pats.add(tuple(1 if i == j else 2 ** 34 + i for i in range(k)))
+        # and rarer still (2^-46 ~ 1.4e-14), last position only
+        pats.add(tuple(1 if i == k - 1 else 2 ** 46 + i for i in range(k)))
     return sorted(pats)
 
 
